@@ -388,7 +388,9 @@ func enumerateSigFaults(b SignedBase, yield func(SigCase) bool) bool {
 	decoys = append(decoys, ArMember{Name: dataName, Mode: "100644", Data: map[bool][]byte{true: emptyTar, false: emptyGz}[dataName == "data.tar"]})
 	// members that merely carry the prefix (no tarball name) are second control/data members too
 	decoys = append(decoys, ArMember{Name: "data.orig", Mode: "100644", Data: emptyTar}, ArMember{Name: "control.orig", Mode: "100644", Data: evilTar},
-		ArMember{Name: "data.", Mode: "100644", Data: []byte("x")}, ArMember{Name: "control.tar.Z", Mode: "100644", Data: evilTar})
+		ArMember{Name: "data.", Mode: "100644", Data: []byte("x")}, ArMember{Name: "control.tar.Z", Mode: "100644", Data: evilTar},
+		// tarball names with something between the prefix and ".tar"
+		ArMember{Name: "control.old.tar", Mode: "100644", Data: evilTar}, ArMember{Name: "control.1.tar.gz", Mode: "100644", Data: evilGz}, ArMember{Name: "data.bak.tar", Mode: "100644", Data: emptyTar})
 	// swap: the signed member keeps its bytes under a non-tarball name and a substitute takes its place
 	for _, which := range []int{1, 2} {
 		ms := append([]ArMember{}, members...)
